@@ -5,6 +5,7 @@ import (
 	"encoding/json"
 	"fmt"
 	"os"
+	"path/filepath"
 	"strings"
 
 	textwire "github.com/textwire/textwire/v2"
@@ -300,6 +301,20 @@ func sameTokens(m []mtok, r []rtok) (bool, string) {
 	return true, ""
 }
 
+// evalAsFile writes the bytes to this worker's scratch file and evaluates the file.
+func evalAsFile(src []byte) (out string, err error, ok bool) {
+	base := os.Getenv("TWH_SCRATCH")
+	if base == "" {
+		base = os.TempDir()
+	}
+	path := filepath.Join(base, fmt.Sprintf("c05-w%d.tw", os.Getpid()))
+	if werr := os.WriteFile(path, src, 0o644); werr != nil {
+		return "", nil, false
+	}
+	out, err = textwire.EvaluateFile(path, nil)
+	return out, err, true
+}
+
 func lexFamily(raw json.RawMessage) Result {
 	var c lexCase
 	if err := json.Unmarshal(raw, &c); err != nil {
@@ -344,6 +359,14 @@ func lexFamily(raw json.RawMessage) Result {
 			} else if out != want {
 				res.Status, res.Kind, res.Msg = "viol", "wrong-output", fmt.Sprintf("want %q got %q", want, out)
 				res.Got = map[string]any{"out": out, "want": want}
+			}
+		}
+		// the same bytes as the content of a file: evaluating a file equals evaluating its content (C18), so the text of a
+		// template file reaches the output byte for byte as well
+		if res.Status == "ok" {
+			if fout, ferr, ok := evalAsFile(src); ok && ((ferr == nil) != (err == nil) || fout != out) {
+				res.Status, res.Kind = "viol", "file-differs"
+				res.Msg = fmt.Sprintf("EvaluateString gives (%q, err=%v), EvaluateFile on a file with the same bytes gives (%q, err=%v)", out, err != nil, fout, ferr != nil)
 			}
 		}
 	case "C08":
